@@ -7,6 +7,9 @@
 (* PlayMove(b): the engine allots b ms to the move; the clock then shows   *)
 (* rem - b + inc.  Requirement for ANY budget function the engine uses:    *)
 (*   BudgetFits   b <= rem              (never more than what is left)     *)
+(*   RepeatFits   b * n <= rem + n * inc: the same budget repeated for the *)
+(*                n announced moves-to-go (15 when none is announced) fits *)
+(*                into the remaining time plus the increments              *)
 (*   ClockLasts   rem >= 0 after every one of the announced moves-to-go    *)
 (*                (or 15 moves when none is announced).                    *)
 (*                                                                         *)
@@ -51,11 +54,12 @@ RandInit == /\ \E i \in 1..NRand :
             /\ bad = FALSE /\ l = 0
 
 \* ------------------------------------------------------------------ the game
-PlayMove(b) ==
+\* n: the moves the budget must last for when it is repeated - the announced moves-to-go at this move, 15 when none is announced
+PlayMove(b, n) ==
     /\ left > 0
     /\ rem' = rem - b + inc
     /\ left' = left - 1
-    /\ bad' = (b > rem \/ rem - b + inc < 0 \/ b < 0)
+    /\ bad' = (b > rem \/ rem - b + inc < 0 \/ b < 0 \/ b * n > rem + (n * inc))
     /\ UNCHANGED inc
 
 BudgetFits == ~bad
@@ -74,7 +78,7 @@ TStart == /\ l <= Len(Trace) /\ Ev.ev = "start"
 
 TMove == /\ l <= Len(Trace) /\ Ev.ev = "move"
          /\ Ev.rem = rem                      \* the logged clock is the model's clock
-         /\ PlayMove(Ev.b)
+         /\ PlayMove(Ev.b, IF Ev.movestogo = 0 THEN 15 ELSE Ev.movestogo)
          /\ UNCHANGED game
          /\ l' = l + 1
 
